@@ -102,6 +102,7 @@ func runC16(c *run.Ctx) {
 	// a name shared by workloads in different namespaces (same kind most of the time)
 	shared := ""
 	must := []int{}
+	adminOverIngress := false
 	if g.P(0.5) && len(w.Workloads) >= 2 {
 		for i := 1; i < len(w.Workloads); i++ {
 			if w.Workloads[i].Ns != w.Workloads[0].Ns {
@@ -121,6 +122,22 @@ func runC16(c *run.Ctx) {
 			must = nil
 		}
 		world.GenIngressResourcesTargeting(g, w, must)
+		if ga := c.R("admin-over-ingress"); ga.P(0.35) {
+			// an admin policy whose subject takes in EVERY namespace - the synthetic one of the ingress controller included - and whose
+			// egress rules decide some of the controller's connections: whatever they decide, the focused run must decide the same
+			subj := world.Subject{Namespaces: &world.Sel{}}
+			if ga.P(0.4) {
+				subj = world.Subject{Namespaces: &world.Sel{ME: []world.Req{{Key: world.MetaName, Op: "NotIn", Vals: []string{rng.Pick(ga, world.NsNames)}}}}}
+			}
+			rule := world.ANPRule{Name: "r0", Action: rng.Pick(ga, []string{"Deny", "Deny", "Allow", "Pass"}), Peers: []world.Subject{{Namespaces: &world.Sel{}}}}
+			if ga.P(0.5) {
+				rule.HasPorts = true
+				rule.Ports = []world.ANPPort{{Kind: "range", Proto: "TCP", Port: 1, End: rng.Pick(ga, []int{80, 8080, 65535})}}
+			}
+			w.ANPs = append(w.ANPs, world.ANP{Name: "every-namespace", Priority: 7, Subject: subj, Egress: []world.ANPRule{rule}})
+			r.Ev("ingress_worlds_with_an_admin_policy_over_every_namespace", 1)
+			adminOverIngress = ga.P(0.6)
+		}
 	}
 	// twins: a workload whose name ends with (and one whose namespace ends with) the name / namespace of another workload, so that a
 	// filter comparing anything looser than the whole name or the whole namespace/name form over-matches
@@ -152,6 +169,9 @@ func runC16(c *run.Ctx) {
 	}
 	class := rng.Pick(g, []string{"present", "present", "nsname", "nsname", "shared", "absent", "namespace", "prefix", "wrongns", "ingress-controller", "ingress-controller", "slash", "shared", "bareslash", "nearname", "nearname"})
 	if realIC && g.P(0.7) {
+		class = "ingress-controller"
+	}
+	if adminOverIngress {
 		class = "ingress-controller"
 	}
 	if len(must) == 2 && c.Idx%4 >= 2 && g.P(0.6) { // both workloads of the shared name are Ingress/Route targets: focus on one of them by namespace/name
